@@ -5,6 +5,8 @@
   anything else raises `Unprintable` = correspondence failure) and rebuilds SymPy objects from
   the S-expressions the Lean driver answers with (bottom-up through the real constructors, i.e.
   exactly what `Basic.xreplace` does on a changed path);
+  a symbol crosses the protocol as `name/declaration`, the declaration being its complete `assumptions0`
+  dict (True- and False-valued facts) as the ternary numeral of the Lean model;
 * `load_real_models` builds the corpus models (qrules reactions stored as JSON under corpus/C17),
   `synthetic_model` draws small random `HelicityModel`s, `gen_sequence` draws rename maps — all
   from the PRNG handed in;
